@@ -321,6 +321,18 @@ func applyProfile(c *RunConfig, ch *simrt.Chooser, p string) {
 		c.Clients = rangeInt(ch, 2, 4)
 		c.Faults = map[string]int{"partition": 2, "heal": 2, "stall": 1}
 		c.StoreFlavour = pick(ch, FlavourPlain, FlavourMonotonic)
+	case "C06s2":
+		c.Voters, c.NonVoters, c.Spares, c.Clients = 3, 0, 0, 0
+		c.Faults = map[string]int{}
+		c.FaultEvery = 0
+		c.DropPct, c.DupPct, c.LongDelayPct, c.RespDropPct, c.SnapTruncPct = 0, 0, 0, 0, 0
+		c.BugTransportErrPct, c.BugFSMSnapErrPct, c.BugPersistErrPct = 0, 0, 0
+		c.DiskSlowPct, c.FSMSlowPct, c.NotifySlowPct = 0, 0, 0
+		c.HeartbeatFastPath = false
+		c.MinLatency, c.Jitter = 100*time.Microsecond, 0
+		c.HeartbeatTimeout, c.ElectionTimeout, c.LeaderLeaseTimeout = 10*time.Second, 10*time.Second, 10*time.Second
+		c.TransportTimeout = 200 * time.Millisecond
+		c.SnapshotInterval = time.Hour
 	case "clean", "C13b":
 		if p == "C13b" {
 			c.LeaseOracle = true
